@@ -7,29 +7,46 @@ by generated fluent programs.  The property oracle does its own identity-based t
 Correspondence: the Gallina model (coq/theories/Graph/Export.v) is evaluated inside Coq on
 the same graphs / dicts: exact serialised dict (with insertion order), exact result of
 deserialise (sink order, nodes() order, every field) or exception type, the value of `==`
-on equal and on perturbed pairs, and json.loads(json.dumps(.)) of the serialised dict."""
+on equal and on perturbed pairs, and json.loads(json.dumps(.)) of the serialised dict.
+Nothing in the generated graphs is sorted unless by accident: outputs (named, numbered past
+ten, reversed, with duplicates), inputs (up to 13, numbered) and node names (numbered) come
+in arbitrary order, and graphs go up to 30 nodes.
+Sessions (Graph/ExportSession.v): several Cascade objects live in one directory and are
+written repeatedly (same and different file names), extended in place (`+=`), united
+(`+`), re-loaded from files, round-tripped in place (dict/JSON, several generations) and
+their node objects mutated (payload, outputs, new sinks) between writes.  After every write
+the file is read back and compared with the graph the object has NOW; at the end every file
+is read again and compared with the graph its writer had at the last write of that name.
+The model of the session (one attribute, `_graph`; a write stores serialise(_graph)) is run
+in Coq on the observed operations and compared with dill.load of every file."""
+import ast
+import copy
 import functools
 import graphlib
 import json
+import math
 import os
+import re
 import tempfile
 
-from common import cZ, cbool, clist, cnat, copt, coq_results, cstr, load_findings
+from common import BUILD, cZ, cbool, clist, cnat, copt, coq_eval_file, cstr, load_findings
 
 TRUSTED = [
     "harness/c12.py: identity-based numbering of Node objects in a topological order (Python object -> heap index), payload <-> pv conversion",
+    "harness/c12.py sessions: the graph a Cascade object has after `+=`, `+`, a reload or a mutation of its nodes is read off the real object (own traversal) and handed to the model as the new value of `_graph`; deduplicate_nodes itself is C11's",
     "graphlib.TopologicalSorter, json, dill are outside the model: their contracts are Section hypotheses, validated per case (order checked topological in Coq; json/dill round-trips compared on every case)",
 ]
 ASSUMPTIONS = [
     "graphlib: static_order returns a topological order of exactly the names that occur whenever one exists (Section hypotheses static_order_sound/complete); the order actually returned is read from the run and validated in Coq",
     "json.loads(json.dumps(d)) = jsonify d on serialised graphs (tuples become lists, payload p becomes jp p); dill.load(dill.dump(d)) = d (Section hypotheses json_roundtrip, dill_roundtrip)",
     "payloads: `!=` is modelled by peqb; theorem hypothesis: peqb (pser p) p = true for every payload (a payload without .serialise() that is equal to itself); JSON: peqb (jp (pser p)) p = true",
+    "a Cascade object carries nothing but `_graph` from one call to the next (Graph/ExportSession.v: the state of the object is its graph; a write stores serialise(_graph), opened with 'wb'); checked on every session by comparing the model's directory with dill.load of every file",
     "graph objects are numbered topologically (an input points to a smaller index): every acyclic pointer graph has such a numbering; cyclic Node structures are outside the property",
     "input names that are parameter names of Node.__init__/the node factory (self, name, outputs, payload) cannot be passed to Node(...); graphs that obtain such an input by assigning to node.inputs are excluded by hypothesis kw_ok (C12_roundtrip_any_input_name_refuted shows they do not round-trip)",
 ]
 
 HEADER = """From Coq Require Import List String Bool Arith ZArith.
-From EKW Require Import Graph.GStore Graph.Export Graph.ExportCheck.
+From EKW Require Import Graph.GStore Graph.Export Graph.ExportCheck Graph.ExportSession Graph.ExportSessionCheck.
 Import ListNotations.
 Open Scope string_scope.
 Open Scope list_scope.
@@ -85,9 +102,19 @@ def pay_to_json(p):
     raise ValueError(f"payload outside the modelled domain: {p!r}")
 
 
+def any_pay_to_json(p):
+    """payloads of the modelled domain structurally, every other (literal) payload by its repr"""
+    try:
+        return pay_to_json(p)
+    except ValueError:
+        return {"py": repr(p)}
+
+
 def pay_from_json(j):
     if j is None:
         return None
+    if "py" in j:
+        return ast.literal_eval(j["py"])
     if "i" in j:
         return j["i"]
     if "s" in j:
@@ -138,19 +165,65 @@ def copt_pv(p, tokens=None):
 
 def plain(p):
     """no .serialise() anywhere, equal to itself"""
-    if p is None or isinstance(p, (int, str)):
+    if p is None or isinstance(p, (int, str, bytes)):
         return True
+    if isinstance(p, float):
+        return not math.isnan(p)
     if isinstance(p, (list, tuple)):
         return all(plain(x) for x in p)
+    if isinstance(p, dict):
+        return all(plain(k) and plain(v) for k, v in p.items())
+    return False
+
+
+def modelled(p):
+    """inside the payload type pv of Graph/ExportCheck.v (everything else is an opaque token)"""
+    if p is None:
+        return True
+    if isinstance(p, bool):
+        return False
+    if isinstance(p, (int, str)):
+        return True
+    if isinstance(p, (list, tuple)):
+        return all(x is not None and modelled(x) for x in p)
+    if isinstance(p, WithSer):
+        return p.inner is not None and modelled(p.inner)
     return False
 
 
 def json_faithful(p):
-    if p is None or isinstance(p, (int, str)):
+    """json.loads(json.dumps(p)) is p again, types included"""
+    if p is None or isinstance(p, (int, str)):      # bool is an int
         return True
+    if isinstance(p, float):
+        return math.isfinite(p)
     if isinstance(p, list):
         return all(json_faithful(x) for x in p)
+    if isinstance(p, dict):
+        return all(type(k) is str and json_faithful(v) for k, v in p.items())
     return False
+
+
+def deep_same(a, b):
+    """equal, and of the same types all the way down (True is not 1, a tuple is not a list)"""
+    if a is b:
+        return True
+    if type(a) is not type(b):
+        return False
+    if isinstance(a, (list, tuple)):
+        return len(a) == len(b) and all(deep_same(x, y) for x, y in zip(a, b))
+    if isinstance(a, dict):
+        if len(a) != len(b):
+            return False
+        for k, v in a.items():
+            k2 = [kk for kk in b if type(kk) is type(k) and kk == k]
+            if not k2 or not deep_same(v, b[k2[0]]):
+                return False
+        return True
+    try:
+        return bool(a == b) and not bool(a != b)
+    except Exception:
+        return False
 
 
 # ----------------------------------------------------------------------------- specs -> real graphs
@@ -158,16 +231,57 @@ NAMES = ["a", "b", "a.b", "a.b.c", "ab", "0", "1", "data", "node_factory", "name
          "", " ", "reader", "reader-0", "process-1", "writer", "x y", "n\"q", "a'b", "self", "A", "a.0", "0.a", "sink", "source:1", "k\\n"]
 INAMES = ["input", "input0", "input1", "x", "y", "data", "node_factory", "a.b", "class", "0", "", "kw", "in put", "factory", "cls", "args", "kwargs", "inputs", "src"]
 OUTS = [None, None, None, [], ["0"], ["a", "b"], ["0", "x"], ["out.1", "out.2", "out.3"], ["a", "a"], ["", "0"], ["output0", "output1"], ["name"]]
+# output names that are NOT in lexicographic order as declared, and pools to draw more from
+OUTS_UNSORTED = [["mean", "std", "count"], ["b", "a"], ["x", "0"], ["z", "a", "m"], ["out.2", "out.10", "out.1"], ["b", "a", "b"], ["B", "a", "A", "b"],
+                 ["1", "0"], ["0", "", " "], ["output1", "output0"], ["_", "Z", "z", "0"], ["payload", "outputs", "name", "inputs"]]
+OUTNAMES = ["mean", "std", "count", "min", "max", "a", "b", "c", "A", "B", "z", "_x", "0", "1", "2", "10", "", "out.1", "out.2", "out.10", "x y", "name", "inputs",
+            "outputs", "payload", "serialise", "output", "e'", "n\"q", "k\\n", "0.0", "-1"]
+
+
+def gen_outputs(rng):
+    k = rng.randrange(20)
+    if k < 9:
+        return rng.choice(OUTS)
+    if k < 12:
+        return list(rng.choice(OUTS_UNSORTED))
+    if k < 15:                       # numbered, past ten: "output10" sorts before "output2"
+        n = rng.choice([11, 12, 13, 14, 21])
+        pre = rng.choice(["output", "output", "", "o", "out."])
+        outs = [f"{pre}{i}" for i in range(n)]
+        if rng.random() < 0.25:
+            outs.reverse()
+        return outs
+    n = rng.choice([2, 3, 3, 4, 5, 7])   # any names, any order, now and then a duplicate
+    outs = rng.sample(OUTNAMES, n)
+    if rng.random() < 0.15:
+        outs.append(outs[0])
+    return outs
+
+
+def gen_inames(rng):
+    k = rng.randrange(12)
+    if k < 9:
+        return rng.sample(INAMES, rng.choice([1, 1, 2, 3]))
+    if k < 11:                       # numbered inputs, past ten
+        n = rng.choice([4, 11, 12, 13])
+        pre = rng.choice(["input", "input", "arg", "x"])
+        names = [f"{pre}{i}" for i in range(n)]
+        if rng.random() < 0.4:
+            rng.shuffle(names)
+        return names
+    return rng.sample(INAMES, rng.choice([5, 8]))
 
 
 def gen_payload(rng, depth=0):
-    k = rng.randrange(10)
+    k = rng.randrange(12)
     if k < 3:
         return None
     if k < 5:
-        return rng.choice([0, 1, -1, 7, 2**40, -2**33])
+        return rng.choice([0, 1, -1, 7, 2**40, -2**33, 2**70])
     if k < 7:
-        return rng.choice(["", "p", "a.b", "0", "x y"])
+        return rng.choice(["", "p", "a.b", "0", "x y", "[1, 2]", "null"])
+    if k >= 10 and depth == 0:       # sequences that are not in order, repeated elements, nesting
+        return copy.deepcopy(rng.choice([[3, 1, 2], ["b", "a", "c"], (2, 1), [[2, 1], [1]], ["10", "9"], [1, 1, 0], ("z", ("y", "x")), [0, "0"], [[], [[]]]]))
     if depth < 2:
         xs = [gen_payload(rng, depth + 1) for _ in range(rng.randrange(3))]
         xs = [0 if x is None or isinstance(x, WithSer) else x for x in xs]
@@ -175,22 +289,40 @@ def gen_payload(rng, depth=0):
     return 3
 
 
-def gen_spec(rng, flavour):
+def gen_opaque_payload(rng):
+    """payloads outside the value type of the model (opaque tokens there): the dict and file
+    paths must hand them back equal and of the same types; JSON only the JSON-faithful ones"""
+    return copy.deepcopy(rng.choice([True, False, 1.5, -0.0, 1e300, b"ab", b"", {"k": 1, "a": [1, 2]}, {"b": 1, "a": 2}, {1: "x", 0: "y"}, [None, 1], (None,),
+                                     {"x": {"y": (1, 2)}}, [True, 1], [1.0, 1], {"t": True}, {}, {"z": None, "a": None}, (b"x", "x"), [{"b": [2, 1]}, {"a": 0}]]))
+
+
+def gen_names(rng, n):
+    k = rng.randrange(10)
+    if k < 7 and n <= len(NAMES):
+        return rng.sample(NAMES, n)
+    pre = rng.choice(["node", "n", "process-", ""])       # numbered: "node10" sorts before "node2"
+    names = [f"{pre}{i}" for i in range(n)]
+    if k == 9:
+        rng.shuffle(names)
+    return names
+
+
+def gen_spec(rng, flavour, sizes=(0, 1, 1, 2, 2, 3, 3, 4, 5, 6, 8, 11) * 2 + (16, 30)):
     """spec = {"nodes": [{"name","outputs","payload","inputs":[[iname, parent index, oname]]}], "sinks": [idx]}
     nodes are listed in creation order (parents first)."""
-    n = rng.choice([0, 1, 1, 2, 2, 3, 3, 4, 5, 6, 8, 11])
-    names = rng.sample(NAMES, min(n, len(NAMES)))
+    n = rng.choice(sizes)
+    names = gen_names(rng, n)
     if flavour == "dup-names" and n >= 2:
         names[rng.randrange(1, n)] = names[0]
     nodes = []
     for i in range(n):
-        outs = rng.choice(OUTS)
+        outs = gen_outputs(rng)
         if flavour == "fluent-like":
             outs = None
         ins = []
         cands = [j for j in range(i) if (nodes[j]["outputs"] is None or nodes[j]["outputs"])]
         if cands and rng.random() < 0.8:
-            for iname in rng.sample(INAMES, rng.choice([1, 1, 2, 3])):
+            for iname in gen_inames(rng):
                 j = rng.choice(cands) if rng.random() < 0.6 else cands[-1]
                 po = nodes[j]["outputs"]
                 oname = "0" if po is None else rng.choice(po)
@@ -198,6 +330,8 @@ def gen_spec(rng, flavour):
         pay = gen_payload(rng)
         if flavour == "payload-serialise" and rng.random() < 0.5:
             pay = WithSer(rng.choice([1, "s", [1, 2]]))
+        if flavour == "opaque-payload" and rng.random() < 0.6:
+            pay = gen_opaque_payload(rng)
         nodes.append({"name": names[i], "outputs": outs, "payload": pay, "inputs": ins})
     consumed = {j for nd in nodes for (_, j, _) in nd["inputs"]}
     terminal = [i for i in range(n) if i not in consumed]
@@ -247,7 +381,7 @@ def build_spec(spec):
 
 
 def spec_to_json(spec):
-    return {"nodes": [{**nd, "payload": pay_to_json(nd["payload"])} for nd in spec["nodes"]], "sinks": list(spec["sinks"])}
+    return {"nodes": [{**nd, "payload": any_pay_to_json(nd["payload"])} for nd in spec["nodes"]], "sinks": list(spec["sinks"])}
 
 
 def spec_from_json(j):
@@ -356,9 +490,8 @@ def deser_case(d, tokens=None, check_creation=None):
 
 
 # ----------------------------------------------------------------------------- property oracle
-def same_as(g2, g):
-    """nothing lost, nothing changed: own traversal of both graphs"""
-    c1, c2 = canon(g), canon(g2)
+def same_canon(c2, c1):
+    """canonical form c2 (what came back) against c1 (what was there): nothing lost, nothing changed"""
     if c2 is None:
         return "result has duplicate names"
     if set(c1) != set(c2):
@@ -367,12 +500,21 @@ def same_as(g2, g):
         o1, i1, p1 = c1[name]
         o2, i2, p2 = c2[name]
         if o1 != o2:
-            return f"outputs of {name!r} differ: {o2} vs {o1}"
+            return f"outputs of {name!r} differ: {o2} vs {o1}"[:300]
         if i1 != i2:
-            return f"inputs of {name!r} differ: {i2} vs {i1}"
-        if p1 is not p2 and (p1 != p2 or type(p1) is not type(p2)):
-            return f"payload of {name!r} differs: {p2!r} vs {p1!r}"
+            return f"inputs of {name!r} differ: {i2} vs {i1}"[:300]
+        if p1 is not p2 and (p1 != p2 or type(p1) is not type(p2) or not deep_same(p1, p2)):
+            return f"payload of {name!r} differs: {p2!r} vs {p1!r}"[:300]
     return None
+
+
+def same_as(g2, g):
+    """nothing lost, nothing changed: own traversal of both graphs"""
+    return same_canon(canon(g2), canon(g))
+
+
+def kind_of(why):
+    return "nodes-lost" if why.startswith("nodes lost") else "nodes-differ"
 
 
 def roundtrips(g, faithful_json=True, with_file=True):
@@ -397,7 +539,7 @@ def roundtrips(g, faithful_json=True, with_file=True):
             continue
         why = same_as(g2, g)
         if why:
-            yield path, why, ("nodes-lost" if why.startswith("nodes lost") else "nodes-differ")
+            yield path, why, kind_of(why)
             continue
         if (g2 == g) is not True or (g == g2) is not True:
             yield path, "result has the same nodes, outputs, inputs and payloads but == is False", "eq-false"
@@ -426,6 +568,7 @@ def domain_of(spec):
     return {
         "plain": all(plain(nd["payload"]) for nd in spec["nodes"]),
         "json": all(json_faithful(nd["payload"]) for nd in spec["nodes"]),
+        "modelled": all(modelled(nd["payload"]) for nd in spec["nodes"]),
     }
 
 
@@ -509,6 +652,10 @@ def mutate_dict(rng, d):
 
 # ----------------------------------------------------------------------------- fluent programs
 def build_fluent(desc):
+    return build_fluent_action(desc).graph()
+
+
+def build_fluent_action(desc):
     import numpy as np
     from earthkit.workflows.fluent import Payload, from_source
     shape = desc["shape"]
@@ -532,7 +679,7 @@ def build_fluent(desc):
             act = act.flatten()
         elif k == "join":
             act = act.join(act.map(Payload(map_fn, kwargs={"a": op[1]})), "w")
-    return act.graph()
+    return act
 
 
 def gen_fluent(rng):
@@ -552,8 +699,386 @@ def gen_fluent(rng):
     return {"shape": shape, "ops": ops}
 
 
+# ----------------------------------------------------------------------------- sessions on Cascade objects
+SIG_SESSION = "session-{path}-roundtrip-{kind}"
+
+
+def prefix_spec(spec, pre):
+    s = copy.deepcopy(spec)
+    for nd in s["nodes"]:
+        nd["name"] = pre + nd["name"]
+    return s
+
+
+def extend_spec(rng, spec, tag):
+    """the same graph with a few more nodes on top: shares every old node with `spec`"""
+    s = copy.deepcopy(spec)
+    for k in range(rng.choice([1, 2, 3])):
+        cands = [j for j, nd in enumerate(s["nodes"]) if nd["outputs"] is None or nd["outputs"]]
+        ins = []
+        if cands:
+            for iname in gen_inames(rng)[:3]:
+                j = rng.choice(cands)
+                po = s["nodes"][j]["outputs"]
+                ins.append([iname, j, "0" if po is None else rng.choice(po)])
+        s["nodes"].append({"name": f"{tag}more{k}", "outputs": gen_outputs(rng), "payload": gen_payload(rng), "inputs": ins})
+    consumed = {j for nd in s["nodes"] for (_, j, _) in nd["inputs"]}
+    s["sinks"] = [i for i in range(len(s["nodes"])) if i not in consumed]
+    return s
+
+
+SESSION_SIZES = (1, 2, 2, 3, 3, 4, 5, 6, 8, 12)
+
+
+def gen_session(rng, fluent=False):
+    """{"fluent": bool, "steps": [...]}; objects are called o0, o1, ...; steps naming an object or
+    a file that does not exist (after shrinking) are skipped by the executor:
+      ["new", o, spec] ["newf", o, [desc, ...]] ["write", o, file] ["iadd", o, o2] ["add", o_new, o, o2]
+      ["load", o_new, file] ["reload", o, "dict"|"json"] ["mutate", o, kind, k, arg]"""
+    steps, objs, files = [], [], []
+
+    def fresh():
+        objs.append(f"o{len(objs)}")
+        return objs[-1]
+    if fluent:
+        descs = []
+        for _ in range(rng.choice([2, 3])):
+            d = gen_fluent(rng)
+            if descs and rng.random() < 0.6:        # a longer program over the same sources: shares nodes
+                d = {"shape": descs[0]["shape"], "ops": descs[0]["ops"] + gen_fluent(rng)["ops"][:2] + [["mean", "x"]]}
+            descs.append(d)
+            steps.append(["newf", fresh(), [d] if rng.random() < 0.7 else [d, gen_fluent(rng)]])
+    else:
+        specs = []
+        for k in range(rng.choice([2, 2, 3, 4])):
+            r = rng.random()
+            if specs and r < 0.3:
+                sp = extend_spec(rng, rng.choice(specs), f"g{k}/")
+            elif specs and r < 0.4:
+                sp = copy.deepcopy(rng.choice(specs))                         # an equal graph built again
+            else:
+                sp = gen_spec(rng, rng.choice(["plain", "plain", "fluent-like"]), SESSION_SIZES)
+                if rng.random() < 0.85:
+                    sp = prefix_spec(sp, f"g{k}/")                            # else names may clash with another graph
+            specs.append(sp)
+            steps.append(["new", fresh(), spec_to_json(sp)])
+
+    def write(o):
+        f = f"{o}-{rng.randrange(3)}.dill"
+        files.append(f)
+        steps.append(["write", o, f])
+
+    def grow(o):
+        r = rng.random()
+        others = [x for x in objs if x != o] or objs
+        if r < 0.6:
+            steps.append(["iadd", o, rng.choice(others)])
+        elif r < 0.7:
+            steps.append(["iadd", o, o])
+        elif fluent:
+            steps.append(["iadd", o, rng.choice(others)])
+        else:
+            kind = rng.choice(["payload", "payload", "add-sink", "append-output", "reverse-outputs", "graph-iadd", "swap-inputs"])
+            arg = pay_to_json(gen_payload(rng)) if kind == "payload" else (rng.choice(others) if kind == "graph-iadd" else rng.choice(OUTNAMES))
+            steps.append(["mutate", o, kind, rng.randrange(64), arg])
+    # the backbone: one object is written, changed, and written again (same or another name)
+    o = rng.choice(objs)
+    if rng.random() < 0.8:
+        write(o)
+    for _ in range(rng.choice([1, 1, 2, 3])):
+        grow(o)
+        if rng.random() < 0.85:
+            write(o)
+    # and anything else around it
+    for _ in range(rng.randrange(0, 7)):
+        r = rng.random()
+        o = rng.choice(objs)
+        if r < 0.35:
+            write(o)
+        elif r < 0.6:
+            grow(o)
+        elif r < 0.7:
+            steps.append(["add", fresh(), o, rng.choice(objs)])
+        elif r < 0.8 and files:
+            steps.append(["load", fresh(), rng.choice(files)])
+        elif r < 0.9 and not fluent:
+            steps.append(["reload", o, rng.choice(["dict", "json"])])
+        else:
+            write(o)
+    k = rng.randrange(len(steps) + 1)          # sometimes interleave a late write of an early object
+    if rng.random() < 0.3:
+        steps.insert(k, ["write", objs[0], f"{objs[0]}-0.dill"])
+    return {"fluent": fluent, "steps": steps}
+
+
+def graph_domain(g, tokens):
+    """(in the domain of the property?, JSON-faithful payloads?) for a live graph"""
+    objs = topo_objects(g)
+    if objs is None:
+        return False, False
+    names = [o.name for o in objs]
+    if len(set(names)) != len(names):
+        return False, False
+    if not all(s.name in s.parent.outputs for o in objs for s in o.inputs.values()):
+        return False, False
+    if any(k in RESERVED for o in objs for k in o.inputs):
+        return False, False
+    if tokens is not None:
+        return True, False
+    return all(plain(o.payload) for o in objs), all(json_faithful(o.payload) for o in objs)
+
+
+class SessionRun:
+    """executes a session on real Cascade objects in a fresh directory"""
+
+    def __init__(self, sess, with_model=True):
+        self.sess = sess
+        self.tokens = Tokens() if sess.get("fluent") else None
+        self.failures = []        # (signature, what, step index)
+        self.counts = {}
+        self.evaluations = 0
+        self.cases = []           # Coq terms for check_session, one per object that wrote
+        self.with_model = with_model
+        self.nontrivial = False
+
+    def count(self, k):
+        self.counts[k] = self.counts.get(k, 0) + 1
+
+    def fail(self, path, kind, what, i):
+        self.failures.append((SIG_SESSION.format(path=path, kind=kind), f"step {i} {self.sess['steps'][i][:3]}: {what}"[:400], i))
+
+    def term(self, g):
+        try:
+            return coq_graph(g, self.tokens) if self.tokens is not None or all(modelled(o.payload) for o in topo_objects(g)) else None
+        except Exception:
+            return None
+
+    def run(self):
+        import warnings
+        warnings.simplefilter("ignore")
+        with tempfile.TemporaryDirectory(prefix="c12s-") as d:
+            self.dir = d
+            self._run()
+        return self
+
+    def _run(self):
+        from earthkit.workflows import Cascade
+        from earthkit.workflows.graph import Graph, Node, deserialise, from_json, serialise, to_json
+        import dill
+        cas = {}          # object id -> Cascade
+        model = {}        # object id -> {"g0": term, "ops": [terms], "last": term, "files": [names], "dead": bool, "err": str|None}
+        written = {}      # file -> (canonical form of the writer's graph at the last write, in domain?)
+
+        def born(o, c):
+            cas[o] = c
+            t = self.term(c._graph)
+            model[o] = {"g0": t, "ops": [], "last": t, "files": [], "dead": t is None, "drop": t is None, "err": None}
+
+        def path(f):
+            return os.path.join(self.dir, f)
+        def attempt(op, fn):
+            """operations that build graphs (+, +=, de-duplication, loading) may refuse graphs outside the property"""
+            try:
+                return fn()
+            except Exception as e:
+                self.count("session-step-raised:" + op + ":" + type(e).__name__)
+                return None
+        for i, st in enumerate(self.sess["steps"]):
+            op = st[0]
+            if op == "new":
+                born(st[1], Cascade(build_spec(spec_from_json(st[2]))))
+            elif op == "newf":                    # programs the fluent API rejects are left out
+                acts = [a for a in (attempt(op, lambda dd=dd: build_fluent_action(dd)) for dd in st[2]) if a is not None]
+                c = attempt(op, lambda: Cascade.from_actions(acts)) if acts else None
+                if c is not None:
+                    born(st[1], c)
+            elif op == "add" and st[2] in cas and st[3] in cas:
+                c = attempt(op, lambda: cas[st[2]] + cas[st[3]])
+                if c is not None:
+                    born(st[1], c)
+                    self.count("session-op:add")
+            elif op == "load" and st[2] in written:
+                c = attempt(op, lambda: Cascade.from_serialised(path(st[2])))
+                if c is not None:
+                    born(st[1], c)
+                    self.count("session-op:load")
+            elif op == "iadd" and st[1] in cas and st[2] in cas:
+                def iadd():
+                    c = cas[st[1]]
+                    c += cas[st[2]]
+                    return c
+                c = attempt(op, iadd)
+                if c is not None:
+                    cas[st[1]] = c
+                    self.count("session-op:iadd")
+            elif op == "mutate" and st[1] in cas:
+                self.mutate(cas, st)
+            elif op == "reload" and st[1] in cas:
+                c = cas[st[1]]
+                g = c._graph
+                ok, faithful = graph_domain(g, self.tokens)
+                if st[2] == "json" and not faithful:
+                    continue
+                self.evaluations += 1
+                try:
+                    g2 = deserialise(serialise(g)) if st[2] == "dict" else from_json(to_json(g))
+                except Exception as e:
+                    if ok:
+                        self.fail(st[2], "raises-" + type(e).__name__, f"raised {type(e).__name__}: {e}", i)
+                    continue
+                if ok:
+                    why = same_as(g2, g)
+                    if why:
+                        self.fail(st[2], kind_of(why), why, i)
+                    elif (g2 == g) is not True or (g == g2) is not True:
+                        self.fail(st[2], "eq-false", "same nodes, outputs, inputs and payloads but == is False", i)
+                c._graph = g2                     # the next generation lives on in the same object
+                self.count("session-op:reload-" + st[2])
+            elif op == "write" and st[1] in cas:
+                self.write(cas, model, written, st, i, Cascade, path)
+        # the end: every file against the graph its writer had at the last write of that name
+        for f, (c1, ok) in written.items():
+            if not ok:
+                continue
+            self.evaluations += 1
+            try:
+                g2 = Cascade.from_serialised(path(f))._graph
+            except Exception as e:
+                self.fail("file", "raises-" + type(e).__name__, f"reading {f} at the end raised {type(e).__name__}: {e}", len(self.sess["steps"]) - 1)
+                continue
+            why = same_canon(canon(g2), c1)
+            if why:
+                self.fail("file", kind_of(why), f"{f} read at the end, against the graph at its last write: {why}", len(self.sess["steps"]) - 1)
+        # model: the directory as the model computes it against dill.load of every file
+        if self.with_model:
+            for o, m in model.items():
+                if m["drop"] or not any(x.startswith("CWrite") for x in m["ops"]):
+                    continue
+                if m["err"] is not None:
+                    exp = f"f_err {cstr(m['err'])}"
+                else:
+                    try:
+                        items = []
+                        for f in m["files"]:
+                            with open(path(f), "rb") as fh:
+                                items.append(f"({cstr(f)}, {coq_sgraph(dill.load(fh), self.tokens)})")
+                        exp = f"f_ok {clist(items)}"
+                    except Exception:
+                        continue
+                self.cases.append(f"({m['g0']}, {clist(m['ops'])}, {exp})")
+
+    def mutate(self, cas, st):
+        from earthkit.workflows.graph import Node
+        _, o, kind, k, arg = st
+        g = cas[o]._graph
+        objs = topo_objects(g)
+        if kind == "graph-iadd":
+            if arg in cas:
+                g += cas[arg]._graph            # Graph.__iadd__: the sink list grows in place, no de-duplication
+                self.count("session-op:mutate-graph-iadd")
+            return
+        if not objs:
+            return
+        nd = objs[k % len(objs)]
+        if kind == "payload":
+            nd.payload = pay_from_json(arg)
+        elif kind == "add-sink":
+            if nd.outputs:
+                g.sinks.append(Node(f"{o}/late{k}", payload=k, late=nd.get_output(nd.outputs[-1])))
+        elif kind == "append-output":
+            nd.outputs.append(arg)
+        elif kind == "reverse-outputs":
+            nd.outputs.reverse()
+        elif kind == "swap-inputs":
+            nd.inputs = dict(reversed(list(nd.inputs.items())))
+        self.count("session-op:mutate-" + kind)
+
+    def write(self, cas, model, written, st, i, Cascade, path):
+        _, o, f = st
+        c = cas[o]
+        g = c._graph
+        ok, _ = graph_domain(g, self.tokens)
+        m = model[o]
+        if not m["dead"]:
+            t = self.term(g)
+            if t is None:                         # a payload outside the model's value type: no model case for this object
+                m["dead"] = m["drop"] = True
+            else:
+                if t != m["last"]:
+                    m["ops"].append(f"CSet {t}")
+                    m["last"] = t
+                m["ops"].append(f"CWrite {cstr(f)}")
+        self.evaluations += 1
+        before = canon(g) if ok else None
+        nprev = sum(1 for x in m["ops"] if x.startswith("CWrite")) if not m["dead"] else 0
+        try:
+            c.serialise(path(f))
+        except Exception as e:
+            if not m["dead"]:
+                m["err"], m["dead"] = type(e).__name__, True
+            if ok:
+                self.fail("file", "raises-" + type(e).__name__, f"write raised {type(e).__name__}: {e}", i)
+            else:
+                self.count("session-write-outside-domain-raised:" + type(e).__name__)
+            return
+        if not m["dead"] and f not in m["files"]:
+            m["files"].append(f)
+        written[f] = (before, ok)
+        self.count("session-op:write" + ("" if ok else "(outside-property-domain)"))
+        if not ok:
+            return
+        if nprev >= 2 and any(x.startswith("CSet") for x in m["ops"]):
+            self.nontrivial = True
+        try:
+            g2 = Cascade.from_serialised(path(f))._graph
+        except Exception as e:
+            self.fail("file", "raises-" + type(e).__name__, f"reading {f} back raised {type(e).__name__}: {e}", i)
+            return
+        why = same_canon(canon(g2), before)
+        if why:
+            self.fail("file", kind_of(why), f"{f} read back after the write, against the graph of {o} now: {why}", i)
+        elif (g2 == g) is not True or (g == g2) is not True:
+            self.fail("file", "eq-false", f"{f} read back: same nodes, outputs, inputs and payloads but == is False", i)
+
+
+def shrink_session(sess, sig):
+    """drop steps while the session still fails with the same signature"""
+    def fails(ss):
+        try:
+            r = SessionRun(ss, with_model=False).run()
+        except Exception:
+            return None
+        for x in r.failures:
+            if x[0] == sig:
+                return x
+        return None
+    best = sess
+    bestf = fails(best)
+    if bestf is None:
+        return None, None
+    changed = True
+    while changed:
+        changed = False
+        for i in reversed(range(len(best["steps"]))):
+            ss = {**best, "steps": best["steps"][:i] + best["steps"][i + 1:]}
+            r = fails(ss)
+            if r:
+                best, bestf, changed = ss, r, True
+                break
+    return best, bestf
+
+
 # ----------------------------------------------------------------------------- run
-FLAVOURS = ["plain"] * 6 + ["fluent-like", "fluent-like", "dup-names", "payload-serialise", "reserved-input", "bogus-ref"]
+SAMPLES = ["empty", "linear:4", "simple:3:2", "multi:3:3:2", "multi:5:12:2", "multi:2:14:11", "simple:12:3", "linear:13", "disconnected:11:2", "comb:11:1"]
+
+
+def build_sample(which):
+    from earthkit.workflows.graph import samplegraphs
+    name, *args = which.split(":")
+    return getattr(samplegraphs, name)(*[int(a) for a in args])
+
+
+FLAVOURS = ["plain"] * 6 + ["fluent-like", "fluent-like", "dup-names", "payload-serialise", "reserved-input", "bogus-ref", "opaque-payload"]
 
 
 def run(ctx, res):
@@ -561,9 +1086,12 @@ def run(ctx, res):
     warnings.simplefilter("ignore")
     from earthkit.workflows.graph import serialise
     listed = {f["signature"] for f in load_findings().get("open", []) if f.get("property") == "C12"}
-    res.rule = ("generated Node graphs (0..11 nodes; names/input names from an adversarial pool incl. '.', prefixes, keywords, 'data', 'node_factory'; "
-                "default/none/multi/duplicate outputs; terminal nodes with and without outputs; arbitrary sink lists) and graphs of generated fluent programs; "
-                "each run through dict, JSON and Cascade-file round trips. non-trivial = at least 2 reachable nodes and 1 edge; distinct = distinct canonical form")
+    res.rule = ("generated Node graphs (0..30 nodes; names/input names from an adversarial pool incl. '.', prefixes, keywords, 'data', 'node_factory', numbered past ten; "
+                "default/none/multi/duplicate outputs, named outputs in no particular order, 11..21 numbered outputs, up to 13 inputs; payloads incl. unordered sequences and, as opaque "
+                "tokens of the model, bools/floats/bytes/dicts; terminal nodes with and without outputs; arbitrary sink lists) and graphs of generated fluent programs; "
+                "each run through dict, JSON and Cascade-file round trips; sessions on several Cascade objects in one directory (repeated writes, +=, +, load, in-place round trips, "
+                "mutation of nodes between writes). non-trivial = at least 2 reachable nodes and 1 edge (distinct = distinct canonical form), or a session in which an object is "
+                "written, changed and written again")
     rng = ctx.sub_rng("graphs")
     ser_cases, ser_meta = [], []
     des_cases, des_meta = [], []
@@ -587,12 +1115,11 @@ def run(ctx, res):
             des_cases.append(term)
             des_meta.append({**case, "path": "dict"})
             if g2 is not None:
-                for a, b in ((g2, g), (g, g2)):
-                    try:
-                        eq_cases.append(f"({coq_graph(a, tokens)}, {coq_graph(b, tokens)}, {cbool((a == b) is True)})")
-                        eq_meta.append({**case, "pair": "deserialised-vs-original"})
-                    except Exception:
-                        pass
+                try:
+                    eq_cases.append(f"({coq_graph(g2, tokens)}, {coq_graph(g, tokens)}, {cbool((g2 == g) is True)}, {cbool((g == g2) is True)})")
+                    eq_meta.append({**case, "pair": "deserialised-vs-original"})
+                except Exception:
+                    pass
             if tokens is None:
                 try:
                     dj = json.loads(json.dumps(d))
@@ -636,29 +1163,39 @@ def run(ctx, res):
         if any(len(o.outputs) > 1 for o in objs):
             res.count("has-multi-output-node")
         case = {"kind": "spec", "spec": spec_to_json(spec), "flavour": flavour}
-        d = add_graph(g, case, None, domain_of(spec), reserved, wf, unique)
+        dom = domain_of(spec)
+        toks = None if dom["modelled"] else Tokens()
+        if toks is not None:
+            res.count("has-payload-outside-the-model-value-type(opaque token)")
+        if any(o.outputs != sorted(o.outputs) for o in objs):
+            res.count("has-node-with-outputs-not-in-sorted-order")
+        if any(len(o.outputs) > 10 for o in objs):
+            res.count("has-node-with-more-than-10-outputs")
+        if any(len(o.inputs) > 10 for o in objs):
+            res.count("has-node-with-more-than-10-inputs")
+        d = add_graph(g, case, toks, dom, reserved, wf, unique)
         if len(res.samples) < 3 and len(objs) >= 3 and d is not None:
             res.samples.append({"flavour": flavour, "serialised": json.loads(json.dumps(d, default=repr)), "sinks": [s.name for s in g.sinks]})
         # == on perturbed pairs
-        if unique and wf and not reserved:
+        small = len(spec["nodes"]) <= 12     # the big graphs are there for the round trips; == and malformed dicts get the others
+        if unique and wf and not reserved and small:
             ps = perturb(rng, spec)
             if ps:
                 s2, what = ps
                 try:
                     gp = build_spec(s2)
                     if topo_objects(gp) is not None:
-                        for a, b in ((g, gp), (gp, g)):
-                            eq_cases.append(f"({coq_graph(a)}, {coq_graph(b)}, {cbool((a == b) is True)})")
-                            eq_meta.append({"kind": "eq", "what": what, "a": spec_to_json(spec), "b": spec_to_json(s2)})
+                        eq_cases.append(f"({coq_graph(g, toks)}, {coq_graph(gp, toks)}, {cbool((g == gp) is True)}, {cbool((gp == g) is True)})")
+                        eq_meta.append({"kind": "eq", "what": what, "a": spec_to_json(spec), "b": spec_to_json(s2)})
                         res.count("eq-perturbation:" + what)
                         res.evaluations += 1
                 except Exception:
                     pass
         # malformed / hand-written dicts
-        if d is not None and i % 2 == 0:
+        if d is not None and i % 2 == 0 and small:
             try:
                 dm, what = mutate_dict(rng, d)
-                term, _ = deser_case(dm, None, creation)
+                term, _ = deser_case(dm, toks, creation)
                 des_cases.append(term)
                 des_meta.append({"kind": "dict", "what": what, "dict": json.loads(json.dumps(dm, default=repr))})
                 res.count("malformed-dict:" + what)
@@ -687,11 +1224,33 @@ def run(ctx, res):
         if i == 0:
             res.samples.append({"fluent": desc, "nodes": len(objs), "sinks": len(g.sinks)})
 
-    # repository sample graphs
-    from earthkit.workflows.graph import samplegraphs
-    for label, g in (("empty", samplegraphs.empty()), ("linear", samplegraphs.linear(4)), ("simple", samplegraphs.simple(3, 2)), ("multi", samplegraphs.multi(3, 3, 2))):
+    # repository sample graphs, also at sizes where numbered names pass ten
+    for which in SAMPLES:
         res.count("flavour:repo-sample")
-        add_graph(g, {"kind": "sample", "which": label}, None, {"plain": True, "json": True}, False, True, True)
+        add_graph(build_sample(which), {"kind": "sample", "which": which}, None, {"plain": True, "json": True}, False, True, True)
+
+    # sessions on Cascade objects
+    srng = ctx.sub_rng("sessions")
+    ses_cases, ses_meta = [], []
+    n_s, n_f = ctx.n(70, 1000), ctx.n(8, 100)
+    for i in range(n_s + n_f):
+        sess = gen_session(srng, fluent=(i >= n_s))
+        r = SessionRun(sess).run()
+        res.evaluations += r.evaluations
+        for k, v in r.counts.items():
+            res.count(k, v)
+        res.count("flavour:session" + ("-fluent" if sess["fluent"] else ""))
+        case = {"kind": "session", "session": sess}
+        for sig, what, at in r.failures:
+            res.fail(sig, what, {**case, "at": at})
+        if r.nontrivial:
+            res.count("session:object-written-changed-written-again")
+            res.nontrivial_keys.add("session:" + json.dumps(sess, sort_keys=True, default=repr))
+        for t in r.cases:
+            ses_cases.append(t)
+            ses_meta.append(case)
+        if i == 0:
+            res.samples.append({"session": [st[:2] + ["..."] if st[0] in ("new", "newf") else st for st in sess["steps"]]})
 
     # the closed witnesses of the _refuted theorems, replayed on the implementation
     w = {"nodes": [{"name": "a", "outputs": None, "payload": None, "inputs": []},
@@ -714,19 +1273,55 @@ def run(ctx, res):
     if creation:
         res.disagree("deserialise creates nodes in an order different from graphlib's static_order on the same dependencies", {"created": creation[0][0], "graphlib": creation[0][1]})
 
-    for tag, cases, metas, checker, what in (
-        ("ser", ser_cases, ser_meta, "check_ser", "serialise(g)"),
-        ("deser", des_cases, des_meta, "check_deser", "deserialise(dict)"),
-        ("eq", eq_cases, eq_meta, "check_eq", "Graph.__eq__"),
-        ("json", js_cases, js_meta, "check_jsonify", "json.loads(json.dumps(serialised))"),
-    ):
-        r, logs = coq_results("C12", HEADER, cases, checker, shard=150, tag=tag)
+    groups = (
+        ("ser", ser_cases, ser_meta, "check_ser", "serialise(g)", 150),
+        ("deser", des_cases, des_meta, "check_deser", "deserialise(dict)", 150),
+        ("eq", eq_cases, eq_meta, "check_eq_both", "Graph.__eq__", 100),
+        ("json", js_cases, js_meta, "check_jsonify", "json.loads(json.dumps(serialised))", 150),
+        ("session", ses_cases, ses_meta, "check_session", "a Cascade object over a session (files after repeated writes and +=)", 40),
+    )
+    for (tag, cases, metas, checker, what, shard), (r, logs) in zip(groups, coq_results_groups([(g[0], g[1], g[3], g[5]) for g in groups])):
         res.corr_checked += len(r)
         res.count("coq-cases:" + tag, len(r))
         for ok, meta in zip(r, metas):
             if ok is not True:
                 res.disagree(f"Coq model of {what} disagrees with the implementation" + ("" if ok is False else " (cases file did not compile: " + (logs[0][-300:] if logs else "") + ")"), meta)
                 break
+
+
+def coq_results_groups(groups, timeout=900):
+    """common.coq_results for several (tag, case terms, checker, shard size) at once: the same case files
+    (build/C12/<tag>_<k>.v, `checker case : bool` for every case by vm_compute), but ONE pool of coqc
+    processes over the shards of all groups instead of one group after the other.  -> [(results, logs)]"""
+    from concurrent.futures import ThreadPoolExecutor
+    d = BUILD / "C12"
+    d.mkdir(parents=True, exist_ok=True)
+    jobs = []
+    for gi, (tag, case_terms, checker, shard) in enumerate(groups):
+        for old in d.glob(f"{tag}_*"):
+            old.unlink()
+        for k in range(0, len(case_terms), shard):
+            chunk = case_terms[k:k + shard]
+            body = [HEADER, "", "Definition cases := [", ";\n".join("  " + c for c in chunk), "].",
+                    f"Definition results := List.map ({checker}) cases.",
+                    'Definition show (bs : list bool) : Coq.Strings.String.string := Coq.Strings.String.concat ""%string (List.map (fun b : bool => if b then "1"%string else "0"%string) bs).',
+                    "Eval vm_compute in show results."]
+            p = d / f"{tag}_{k // shard}.v"
+            p.write_text("\n".join(body) + "\n")
+            jobs.append((gi, k, p, len(chunk), sum(len(c) for c in chunk)))
+    order = sorted(range(len(jobs)), key=lambda j: -jobs[j][4])          # big shards first
+    with ThreadPoolExecutor(max_workers=8) as ex:
+        outs = dict(zip(order, ex.map(lambda j: coq_eval_file(jobs[j][2], timeout), order)))
+    per = [([], []) for _ in groups]
+    for j, (gi, k, p, n, _) in enumerate(jobs):
+        rc, out = outs[j]
+        m = re.search(r'=\s*"([01]*)"', out.replace("\n", "").replace(" ", "")) if rc == 0 else None
+        if rc != 0 or not m or len(m.group(1)) != n:
+            per[gi][0].extend([None] * n)
+            per[gi][1].append(f"{p.name}: rc={rc} {out[-1500:]}")
+        else:
+            per[gi][0].extend(c == "1" for c in m.group(1))
+    return per
 
 
 # ----------------------------------------------------------------------------- search / replay
@@ -767,6 +1362,17 @@ def search(ctx, res):
         if classify(None, g, r2, {"kind": "fluent", "desc": desc}, faithful_json=False, listed=listed):
             f = r2.failures[0]
             return {"signature": f["signature"], "what": f["what"], "case": f["case"]}
+    for which in SAMPLES:
+        r2 = Result()
+        if classify(None, build_sample(which), r2, {"kind": "sample", "which": which}, listed=listed):
+            f = r2.failures[0]
+            return {"signature": f["signature"], "what": f["what"], "case": f["case"]}
+    for i in range(4000):
+        sess = gen_session(rng, fluent=(i % 10 == 9))
+        r = SessionRun(sess, with_model=False).run()
+        if r.failures:
+            sig, what, at = r.failures[0]
+            return shrink(ctx, {"signature": sig, "what": what, "case": {"kind": "session", "session": sess, "at": at}})
     return None
 
 
@@ -777,9 +1383,14 @@ def shrink(ctx, f):
     warnings.simplefilter("ignore")
     from common import Result
     case = f["case"]
+    sig = f["signature"]
+    if case.get("kind") == "session":
+        best, bf = shrink_session(case["session"], sig)
+        if best is None:
+            return f
+        return {"signature": sig, "what": bf[1], "case": {"kind": "session", "session": best, "at": bf[2]}}
     if case.get("kind") != "spec":
         return f
-    sig = f["signature"]
 
     def fails(js):
         try:
@@ -851,6 +1462,12 @@ def replay(ctx, case):
     elif c.get("kind") == "fluent":
         g = build_fluent(c["desc"])
         faithful = False
+    elif c.get("kind") == "sample":
+        g = build_sample(c["which"])
+        faithful = True
+    elif c.get("kind") == "session":
+        r = SessionRun(c["session"], with_model=False).run()
+        return {"fails": bool(r.failures), "failures": [{"signature": x[0], "what": x[1]} for x in r.failures][:3]}
     else:
         return {"fails": None, "note": "this replay names a broken proof / correspondence: re-run ./check C12"}
     r2 = Result()
